@@ -1393,6 +1393,14 @@ func (env *SpecEnv) call(x *ast.CallExpr, subs map[string]*SpecExpr) SV {
 				return SV{V: *b.FreshT, T: boolT}
 			}
 			return SV{V: TFalse(), T: boolT}
+		case "dyn":
+			// dyn(x): the concrete value held by an interface whose dynamic type the scenario fixes
+			a := env.expr(x.Args[0], subs)
+			iv, ok := a.V.(IfaceVal)
+			if !ok || iv.Dyn == nil {
+				sfail("dyn: %s does not hold a value of a known dynamic type", exprString(x.Args[0]))
+			}
+			return SV{V: iv.V, T: iv.Dyn}
 		case "buf_len", "buf_at":
 			// contents of a bytes.Buffer: its length, its j-th unread byte
 			a := env.expr(x.Args[0], subs)
